@@ -197,7 +197,7 @@ def c06(c):
     c.cov["samples"] += [
         {"theorem": "dopri5_interp_right", "statement": "interpolate (xold+h) xold h (dense y1 y h k1 k2).cont0..3 c4 = y1 ∧ (dense …).cont0 = y, for all n, vectors, xold, h ≠ 0"},
         {"theorem": "rk23_interp_right", "statement": "interpolate (xold+h) … (dense y Ka Kb Kc Kd) = stages_loop3 y h Ka Kb Kc  (the accepted state the stage code computed)"},
-        {"theorem": "ContM.c06_cover", "statement": "Chain fwd x (s :: r) → sol_span = (x, end) ∧ x ≠ end ∧ (min x end ≤ t ≤ max x end → ∃ s' ∈ segs, sol t = ok s'.id ∧ t within tol of s') ∧ (t outside → sol t = OutOfRange)   (both directions, any number of steps)"},
+        {"theorem": "ContM.c06_cover", "statement": "Chain fwd x (s :: r) → sol_span = (x, end) ∧ x ≠ end ∧ (min x end − tol(min) ≤ t ≤ max x end + tol(max) → ∃ s' ∈ segs, sol t = ok s'.id ∧ t within segSlack s' of s') ∧ (t beyond the span widened by spanSlack → sol t = OutOfRange)   (both directions, any number of steps)"},
         {"theorem": "SolOutM.c06_collect", "statement": "step … = some (s', f) → s'.denseSegs = if collectDense ∧ x ≠ xold ∧ ip.h ≠ 0 then s.denseSegs.push (ip.xold, ip.h) else s.denseSegs"},
     ]
     c.partial = ["Radau's and BDF's interpolants (and BDF's change_d, orders 1..5) are theorems about the full numeric models RadauNum / BdfNum, which X-radaunum / X-bdfnum tie to the solvers bit for bit (every callback carries five interpolant samples)",
